@@ -125,3 +125,23 @@ func badNamedResult() (n int) {
 }
 
 func badClose(b *box) { close(b.done) }
+
+func badSeqBreak(total int) int {
+	seq, _ := spans(total)
+	for p := range seq {
+		if p.n == 1 {
+			break
+		}
+	}
+
+	return 0
+}
+
+func badStrideVar(total, k int) int {
+	s := 0
+	for off := 0; off < total; off += k {
+		s++
+	}
+
+	return s
+}
